@@ -101,7 +101,7 @@ class Ctx(object):
         self.budget_s = float(os.environ.get('VERIF_BUDGET_S', '0')) or None
         if not replay_only:
             # replay files describe the violations of the latest run only
-            d = os.path.join(VERIF, 'replay', pid)
+            d = os.path.join(os.environ.get('VERIF_REPLAY_DIR') or os.path.join(VERIF, 'replay'), pid)
             if os.path.isdir(d):
                 for f in os.listdir(d):
                     if f.endswith('.json'):
@@ -233,11 +233,12 @@ class Ctx(object):
             'wall_s': round(wall, 3),
             'violations': nviol,
         }
-        os.makedirs(os.path.join(VERIF, 'evidence'), exist_ok=True)
-        tmp = os.path.join(VERIF, 'evidence', '%s.json.tmp' % self.pid)
+        evdir = os.environ.get('VERIF_EVIDENCE_DIR') or os.path.join(VERIF, 'evidence')
+        os.makedirs(evdir, exist_ok=True)
+        tmp = os.path.join(evdir, '%s.json.tmp' % self.pid)
         with open(tmp, 'w') as fh:
             json.dump(ev, fh, indent=1, sort_keys=True)
-        os.replace(tmp, os.path.join(VERIF, 'evidence', '%s.json' % self.pid))
+        os.replace(tmp, os.path.join(evdir, '%s.json' % self.pid))
         for line in out:
             print(line)
         print('%s tier=%s seed=%d states=%d transitions=%d exhaustive=%s known=%d violations=%d wall=%.1fs' % (
@@ -254,7 +255,7 @@ def _wsize(v):
 
 
 def write_replay(pid, v):
-    d = os.path.join(VERIF, 'replay', pid)
+    d = os.path.join(os.environ.get('VERIF_REPLAY_DIR') or os.path.join(VERIF, 'replay'), pid)
     os.makedirs(d, exist_ok=True)
     sha = hashlib.sha1(v['signature'].encode()).hexdigest()[:16]
     path = os.path.join(d, sha + '.json')
